@@ -102,6 +102,11 @@ func c17Variants(dev glow.PublicKey) map[string]func(cur string) c17Variant {
 			f.GCAAuthorization[3] ^= 1
 			return []server.AuthorizedServer{srv("S0", false, 7000, c), f}
 		}),
+		// a genuine ban followed by the genuine older authorization of the same key: the ban must survive, whether or
+		// not the client knew the server before this reply
+		"Ldupbanfirst": list(func(c string) []server.AuthorizedServer {
+			return []server.AuthorizedServer{srv("S2", true, 7000, c), srv("S2", false, 7000, c)}
+		}),
 		"M":      mig(dev, "cur", "G3"),
 		"Mouter": mig(dev, "G2", "G3"),
 		"Minner": mig(dev, "cur", "cur-inner"),
@@ -309,7 +314,7 @@ func init() {
 		}
 		st1 := bfsPool(run, p, "ops", arg, depth, 0, func([]string) []string { return sops })
 		// client side
-		cops := []string{"L1", "L12", "L1b", "L1p", "L0b", "Lbad", "Lmix", "Ldupforged", "Ldupgenuine", "Ldup0forged", "M", "Mouter", "Minner", "Mother", "restart"}
+		cops := []string{"L1", "L12", "L1b", "L1p", "L0b", "Lbad", "Lmix", "Ldupforged", "Ldupgenuine", "Ldup0forged", "Ldupbanfirst", "M", "Mouter", "Minner", "Mother", "restart"}
 		cdepth := 4
 		if tier == "thorough" {
 			cdepth = 5
